@@ -8,12 +8,18 @@ import (
 
 	"verifharness/internal/core"
 	"verifharness/props/c01"
+	"verifharness/props/c02"
+	"verifharness/props/c03"
 	"verifharness/props/c05"
+	"verifharness/props/c17"
 )
 
 var props = map[string]func(*core.Ctx) int{
 	"C01": c01.Run,
+	"C02": c02.Run,
+	"C03": c03.Run,
 	"C05": c05.Run,
+	"C17": c17.Run,
 }
 
 func main() {
